@@ -889,7 +889,10 @@ def gen_spec(rng, kind=None, small=False):
         return {"kind": kind, "n": rng.choice([-1, 0, 1, 2, 3, 4, 11]), "m": rng.choice([-2, 0, 1, 2, 3, 5, 10]), "label": lab}
     if kind == "binary_mapping":
         return {"kind": kind, "n": rng.choice([-1, 0, 1, 2, 3, 4]),
-                "m": rng.choice([-1, 0, 1, 2, 3, 4, 5, 7, 8, 9, 16, 17, 1000, 2 ** 20]), "label": lab}
+                # 2**20 exercises the float ceil(log2) far from small values, but every such group keeps a table of
+                # 2**20 sign tuples (~200 MB) alive as long as its case is: keep it rare
+                "m": (2 ** 20 if rng.random() < 0.004 else
+                      rng.choice([-1, 0, 1, 2, 3, 4, 5, 7, 8, 9, 16, 17, 33, 1000, 2 ** 12])), "label": lab}
     raise ValueError(kind)
 
 
